@@ -2,6 +2,7 @@
    semantics over call-site rows, the generated table, and the coercion / mix rules (property C07). *)
 From Coq Require Import ZArith List Bool String Lia.
 From Verif Require Import Py PyExt PyFill S_fill FillRules.
+From Verif Require Shape COO.
 Import ListNotations.
 Open Scope Z_scope.
 Open Scope string_scope.
@@ -394,6 +395,10 @@ Definition site_sound (table : list site) (pol : policy) (s : site) : Prop :=
   | Preserves ok =>
       forall c f other r, In c (s_ctors s) -> exec p c rho f other = Ok r ->
         r = f \/ c_fill c = FDense \/ mem (c_src c) ok = true
+  | PreservesOrZeroOnly ops =>
+      (forall c f other r, In c (s_ctors s) -> exec p c rho f other = Ok r -> r = f \/ c_fill c = FDense)
+      \/ ((forall o z, In o ops -> In (VInt z) (lookup rho o) -> z <> 0 -> run_guards rho (p_guards p) = Raise ValueError)
+          /\ (forall c other, In c (s_ctors s) -> result_fill c (VInt 0) other = VInt 0 \/ c_fill c = FDense))
   | CallerGuarded =>
       forall t, In t table -> mem (s_op s) (s_delegates t) = true -> zero_only_policy (policy_of (s_op t)) = true
   | Computes | NoArrayResult => True
@@ -401,7 +406,7 @@ Definition site_sound (table : list site) (pol : policy) (s : site) : Prop :=
 
 Theorem site_ok_sound_proof : forall table pol s, site_ok table pol s = true -> site_sound table pol s.
 Proof.
-  intros table pol s H p rho Hp Hr W. destruct pol as [ops|ops|cnd ops|a|ok| | |]; cbn [site_ok] in H.
+  intros table pol s H p rho Hp Hr W. destruct pol as [ops|ops|cnd ops|a|ok|ops| | |]; cbn [site_ok] in H.
   - split.
     + intros o z Ho Hz Hnz. eapply zero_only_sound_proof; eassumption.
     + intros c other Hc. eapply zero_only_result_proof; eassumption.
@@ -409,13 +414,19 @@ Proof.
   - intros Hc o z Ho Hz Hnz. eapply zero_only_when_sound_proof; eassumption.
   - eapply consistent_sound_proof; eassumption.
   - intros c f other r Hc E. eapply preserves_sound_proof; eassumption.
+  - apply orb_true_iff in H. destruct H as [H|H].
+    + left. intros c f other r Hc E.
+      destruct (preserves_sound_proof [] s H p c rho f other r Hc E) as [?|[?|M]]; auto. discriminate M.
+    + right. split.
+      * intros o z Ho Hz Hnz. eapply zero_only_sound_proof; eassumption.
+      * intros c other Hc. eapply zero_only_result_proof; eassumption.
   - exact I.
   - exact I.
   - intros t Ht Hm. eapply caller_guarded_sound_proof; eassumption.
 Qed.
 
 (* ------------------------------------------------------------------ the generated table *)
-Theorem policy_respected_partial_proof : forallb (site_ok_req sites) sites_minus_exceptions = true.
+Theorem policy_respected_proof : forallb (site_ok_req sites) sites = true.
 Proof. vm_compute. reflexivity. Qed.
 
 (* every generated row carries a required policy (a new public operation must be classified) *)
@@ -427,32 +438,9 @@ Theorem policy_no_stale_proof :
   forallb (fun kp => match find_site sites (fst kp) with Some _ => true | None => false end) required = true.
 Proof. vm_compute. reflexivity. Qed.
 
-(* the full statement  forallb (site_ok_req sites) sites = true  is false of the unchanged source: exactly the
-   rows named in `exceptions` fail, and each of them, run in the abstract semantics on an operand with fill 3,
-   returns a result whose fill is 0 without raising *)
-Definition exception_fails (op : string) : bool :=
-  match find_site sites op with
-  | Some s => negb (site_ok_req sites s)
-  | None => false
-  end.
-
-Definition exception_silently_wrong (op : string) : bool :=
-  match find_site sites op with
-  | Some s =>
-      existsb (fun p => path_returns p &&
-        existsb (fun c => match exec p c [("a", [VInt 3])] (VInt 3) VNone with
-                          | Ok (VInt 0) => true
-                          | _ => false
-                          end) (s_ctors s)) (s_paths s)
-  | None => false
-  end.
-
-Theorem policy_refuted_proof :
-  forallb (fun op => exception_fails op && exception_silently_wrong op) exceptions = true.
-Proof. vm_compute. reflexivity. Qed.
-
-(* the same witness on a hand-written copy of the `diagonal` row as extracted from the unchanged source
-   (stable under regeneration): no guard, constructor without fill_value *)
+(* the check discriminates: the `diagonal` row as it was extracted BEFORE fix 7b39a89 (finding D5: no guard,
+   constructor without fill_value) fails its obligation, and run in the abstract semantics on an operand with fill 3 it
+   returns a result with fill 0 without raising *)
 Definition diagonal_row_example : site :=
   mkSite "coo_common.diagonal" true ["a"; "offset"; "axis1"; "axis2"]
     [mkPath PRaise ["a.shape[axis1] != a.shape[axis2]"] [] "ValueError";
@@ -597,36 +585,84 @@ Proof.
   rewrite xsum_app, IH. cbn. f_equal. lia.
 Qed.
 
-Lemma xsum_repeat_special f k : xfinite f = false -> xsum (repeat f (S k)) = f.
+Lemma xsum_repeat_special f k : (forall z, f <> Fin z) -> xsum (repeat f (S k)) = f.
 Proof.
   intros H. induction k as [|k IH].
-  - cbn. destruct f; try discriminate; reflexivity.
+  - destruct f; try reflexivity; exfalso; eapply H; reflexivity.
   - change (repeat f (S (S k))) with ([f] ++ repeat f (S k))%list. rewrite xsum_app, IH.
-    destruct f; try discriminate; reflexivity.
+    destruct f; try reflexivity; exfalso; eapply H; reflexivity.
 Qed.
 
-Theorem sum_fill_correction_partial_proof :
-  forall stored fill n, (List.length stored <= n)%nat -> d23_clause stored fill n = true ->
+Lemma xsum_repeat_count f k : (0 < k)%nat -> xsum (repeat f k) = xmul_count f (Z.of_nat k).
+Proof.
+  intros H. destruct f as [x| | |]; [apply xsum_repeat_fin| | |];
+    (destruct k as [|k]; [lia|]; rewrite xsum_repeat_special by (intros z; discriminate); cbn;
+     try (replace (Z.pos (Pos.of_succ_nat k) =? 0)%Z with false by (symmetry; apply Z.eqb_neq; lia)); reflexivity).
+Qed.
+
+(* the correction of a group with stored values is right for every fill, finite or not (since fix f1f8980) *)
+Theorem sum_fill_correction_proof :
+  forall stored fill n, (List.length stored <= n)%nat ->
     sum_group_impl stored fill n = sum_group_spec stored fill n.
 Proof.
-  intros stored fill n Hle Hd. unfold sum_group_impl, sum_group_spec. rewrite xsum_app. f_equal.
-  replace (Z.of_nat n - Z.of_nat (List.length stored)) with (Z.of_nat (n - List.length stored)) by lia.
-  unfold d23_clause in Hd. destruct (xfinite fill) eqn:F.
-  - destruct fill; try discriminate. rewrite xsum_repeat_fin. reflexivity.
-  - cbn [orb] in Hd. apply Nat.ltb_lt in Hd.
-    destruct (n - List.length stored)%nat as [|k] eqn:K; [lia|].
-    rewrite (xsum_repeat_special fill k F).
-    destruct fill; try discriminate; cbn;
-      replace (Z.pos (Pos.of_succ_nat k) =? 0)%Z with false by (symmetry; apply Z.eqb_neq; lia); reflexivity.
+  intros stored fill n Hle. unfold sum_group_impl, sum_group_spec. rewrite xsum_app.
+  destruct (Nat.eqb_spec (List.length stored) n) as [E|N].
+  - subst n. rewrite Nat.sub_diag. cbn [repeat]. unfold xsum at 2. cbn [fold_left]. rewrite xadd_0_r. reflexivity.
+  - f_equal.
+    replace (Z.of_nat n - Z.of_nat (List.length stored)) with (Z.of_nat (n - List.length stored)) by lia.
+    symmetry. apply xsum_repeat_count. lia.
 Qed.
 
-(* the unrestricted statement is false: a complete group with an infinite fill (finding D23):
-   COO([[1, 2], [inf, 3]], fill_value=inf).sum(axis=1)[0] is nan, NumPy says 3 *)
-Theorem sum_fill_correction_refuted_proof :
-  exists stored fill n, (List.length stored <= n)%nat /\ sum_group_impl stored fill n <> sum_group_spec stored fill n.
-Proof. exists [Fin 1; Fin 2], PInf, 2%nat. split; [cbn; lia|]. vm_compute. discriminate. Qed.
+(* ... and so is the fill of the result (a group that stores nothing), including an empty reduced axis *)
+Theorem sum_result_fill_right_proof :
+  forall fill n, sum_result_fill fill n = xsum (repeat fill n).
+Proof.
+  intros fill n. unfold sum_result_fill. destruct (Nat.eqb_spec n 0) as [->|N]; [reflexivity|].
+  symmetry. apply xsum_repeat_count. lia.
+Qed.
 
+(* the case that used to fail (finding D29): a complete group with an infinite fill *)
 Example sum_fill_correction_nonvacuous :
-  d23_clause [Fin 1] PInf 2 = true /\ sum_group_impl [Fin 1] PInf 2 = PInf
-  /\ d23_clause [Fin 1; Fin 2] (Fin 3) 4 = true /\ sum_group_impl [Fin 1; Fin 2] (Fin 3) 4 = Fin 9.
+  sum_group_impl [Fin 1; Fin 2] PInf 2 = Fin 3 /\ sum_group_spec [Fin 1; Fin 2] PInf 2 = Fin 3
+  /\ sum_group_impl [Fin 1] PInf 2 = PInf /\ sum_group_impl [Fin 1; Fin 2] (Fin 3) 4 = Fin 9
+  /\ sum_result_fill XNaN 3 = XNaN /\ sum_result_fill PInf 0 = Fin 0.
 Proof. repeat split. Qed.
+
+(* ------------------------------------------------------------------ fill passing = right at every unstored position *)
+Theorem preserves_fill_right_proof :
+  forall (V : Type) (x r : COO.coo V) (src : Shape.idx -> Shape.idx),
+    stored_right x r src -> unstored_from_unstored x r src -> COO.c_fill r = COO.c_fill x ->
+    forall i, COO.den r i = COO.den x (src i).
+Proof.
+  intros V x r src Hs Hu Hf i. unfold COO.den at 1.
+  destruct (COO.lookup (COO.entries r) i) as [v|] eqn:E.
+  - symmetry. apply (Hs i v E).
+  - unfold COO.den. rewrite (Hu i E). exact Hf.
+Qed.
+
+(* ... and passing it is necessary as soon as one position of the result is unstored *)
+Theorem preserves_fill_necessary_proof :
+  forall (V : Type) (x r : COO.coo V) (src : Shape.idx -> Shape.idx),
+    unstored_from_unstored x r src ->
+    (exists i, COO.lookup (COO.entries r) i = None) ->
+    (forall i, COO.den r i = COO.den x (src i)) -> COO.c_fill r = COO.c_fill x.
+Proof.
+  intros V x r src Hu [i E] H. specialize (H i). unfold COO.den in H. rewrite E, (Hu i E) in H. exact H.
+Qed.
+
+(* the same illustration at the level of dense meanings: with the fill not passed, position 1 of diagonal(x) is 0
+   although x[1,1] is 3 *)
+Example unpassed_fill_is_wrong_example :
+  stored_right diag_operand_example diag_result_example diag_src
+  /\ unstored_from_unstored diag_operand_example diag_result_example diag_src
+  /\ COO.den diag_result_example [1] = 0 /\ COO.den diag_operand_example (diag_src [1]) = 3.
+Proof.
+  split; [|split; [|split; reflexivity]].
+  - intros i v. destruct i as [|k [|? ?]]; cbn; try discriminate;
+      try (rewrite andb_false_r; discriminate).
+    rewrite andb_true_r. destruct (Z.eqb_spec 0 k) as [<-|N]; [|discriminate].
+    intros H; injection H as <-. reflexivity.
+  - intros i. destruct i as [|k [|? ?]]; cbn; try reflexivity;
+      try (rewrite ?andb_false_r; reflexivity).
+    rewrite !andb_true_r. destruct (Z.eqb_spec 0 k) as [<-|N]; [discriminate|reflexivity].
+Qed.
